@@ -25,27 +25,36 @@ theorem active_counts_open (C : Cfg) (s : LState) (hr : Reachable (sys C) s) :
 /-! ### The listener stops only when idle -/
 
 /-- **shutdown_only_when_idle**: whichever step sets `shutdown` (and closes the listener), it is
-the timer callback's critical section, an idle timeout is configured, and at that instant the
+the timer callback's critical section (`timerRun`, or `expire` in the timed system), an idle timeout is configured, and at that instant the
 counter is zero and no connection is being served. -/
 theorem shutdown_only_when_idle (C : Cfg) (s s' : LState) (a : Act) (hr : Reachable (sys C) s)
     (hs : step C s a = some s') (h0 : s.shutdown = false) (h1 : s'.shutdown = true) :
-    (∃ g, a = .timerRun g) ∧ C.idle = true ∧ s.active = 0 ∧ ∀ c ∈ s.ids, s.stage c ≠ .serving := by
+    (∃ g, a = .timerRun g ∨ a = .expire g) ∧ C.idle = true ∧ s.active = 0 ∧ ∀ c ∈ s.ids, s.stage c ≠ .serving := by
   have hI := reachable_inv C s hr
   have hI' := inv_step C s s' a hI hs
   have hidle : C.idle = true := by
     cases hi : C.idle with
     | true => rfl
     | false => have := (hI'.noIdle hi).2.2; rw [h1] at this; cases this
-  have key : (∃ g, a = .timerRun g) ∧ s.active = 0 := by
+  have key : (∃ g, a = .timerRun g ∨ a = .expire g) ∧ s.active = 0 := by
     cases a with
     | timerRun g =>
       simp only [step] at hs
       split at hs
       · cases hs
         by_cases ha : s.active = 0
-        · exact ⟨⟨g, rfl⟩, ha⟩
+        · exact ⟨⟨g, Or.inl rfl⟩, ha⟩
         · simp only [ha, if_false] at h1; rw [h0] at h1; cases h1
       · cases hs
+    | expire g =>
+      simp only [step] at hs
+      split at hs
+      · cases hs
+        by_cases ha : s.active = 0
+        · exact ⟨⟨g, Or.inr rfl⟩, ha⟩
+        · simp only [ha, if_false] at h1; rw [h0] at h1; cases h1
+      · cases hs
+    | tick t => simp only [step] at hs; cases hs; simp_all
     | bind st =>
       simp only [step] at hs; split at hs
       · cases hs; split at h1 <;> simp_all [arm]
@@ -77,6 +86,42 @@ theorem shutdown_only_when_idle (C : Cfg) (s s' : LState) (a : Act) (hr : Reacha
   have hpos : 0 < openCount s := by
     simp only [openCount, List.countP_pos_iff]; exact ⟨c, hc, by simp [hst]⟩
   omega
+
+/-! ### Timed system: the idle period is a full one -/
+
+theorem treachable_reachable (C : Cfg) (s : LState) (hr : Reachable (tsys C) s) : Reachable (sys C) s := by
+  refine reachable_mono (tsys C) (sys C) rfl ?_ s hr
+  intro s a s' hs
+  cases a <;> first | exact hs | (simp [tsys] at hs)
+
+theorem reachable_tinv (C : Cfg) (hTG : C.T ≤ C.G) (s : LState) (hr : Reachable (tsys C) s) : TInv C s :=
+  invariant_of_step_using (tsys C) (Inv C) (TInv C)
+    (fun s hr => reachable_inv C s (treachable_reachable C s hr)) (tinv_init C)
+    (fun s a s' haux hi hs => tinv_step C hTG s s' a haux hi hs) s hr
+
+/-- **shutdown_only_after_full_idle_period** (timed system `tsys`: every timer carries its deadline
+`now + d` from the moment it was armed, re-arming resets it, counting a connection cancels it, and
+a due timer's callback runs without delay): the step that shuts the listener down is the expiry
+of the armed timer, and at that instant the counter is zero, it dropped to zero at least the full
+idle timeout `T` ago (`zeroSince + T ≤ now`; start-up: the grace `G ≥ T`), and no connection has
+been counted since (`lastCount ≤ zeroSince`) — a reconnect in between restarts the period. -/
+theorem shutdown_only_after_full_idle_period (C : Cfg) (hTG : C.T ≤ C.G) (s s' : LState) (a : Act)
+    (hr : Reachable (tsys C) s) (hs : (tsys C).step s a = some s')
+    (h0 : s.shutdown = false) (h1 : s'.shutdown = true) :
+    (∃ g, a = .expire g) ∧ s.active = 0 ∧ s.zeroSince + C.T ≤ s.now ∧ s.lastCount ≤ s.zeroSince := by
+  have hT := reachable_tinv C hTG s hr
+  have hsys : step C s a = some s' := by
+    cases a <;> first | exact hs | (simp [tsys] at hs)
+  obtain ⟨⟨g, hg⟩, _, ha, _⟩ := shutdown_only_when_idle C s s' a (treachable_reachable C s hr) hsys h0 h1
+  rcases hg with hg | hg
+  · subst hg; simp [tsys] at hs
+  · subst hg
+    simp only [step] at hsys
+    split at hsys
+    · rename_i hc
+      obtain ⟨_, hz⟩ := hT.armed g hc.1
+      exact ⟨⟨g, rfl⟩, ha, by omega, hT.cz ha⟩
+    · cases hsys
 
 /-- **armed_only_when_idle**: a timer that can still fire exists only while no connection is
 counted (every `count` disarms, only the last `connDone` arms). -/
@@ -200,5 +245,14 @@ example : ((run (sys exCfg) init [.bind none, .accept 1, .count, .connDone 1, .f
 example : ((run (sys exCfg) init [.bind none, .accept 1, .count, .connDone 1, .fire 1, .accept 2, .timerRun 1, .count,
       .acceptErr false, .leave]).map
     fun s => decide (s.shutdown = true ∧ s.stage 2 = .serving ∧ step exCfg s .ret = none)) = some true := by decide
+
+-- timed: close at 100 (armed for 100+50), reconnect at 120 (cancels), close at 130 (re-armed for 180):
+-- at 160 the old deadline has passed but nothing can expire; at 180 it can
+def tCfg : Cfg := { idle := true, unix := false, h := id, T := 50, G := 1000 }
+
+example : ((run (tsys tCfg) init [.bind none, .accept 1, .count, .tick 100, .connDone 1, .tick 120, .accept 2, .count,
+      .tick 130, .connDone 2, .tick 160]).map fun s =>
+    decide (s.deadline = 180 ∧ s.zeroSince = 130 ∧ s.lastCount = 120 ∧ (Listener.step tCfg s (.expire 2)).isNone ∧
+      (Listener.step tCfg { s with now := 180 } (.expire 2)).isSome)) = some true := by decide
 
 end Vgi.Props.C42
